@@ -31,6 +31,9 @@ pub struct Handoff {
     pub inject: std::sync::atomic::AtomicU8,
 }
 
+/// site reported by a closure thread that will never get any further (see `open64`)
+pub const BLOCKED_FOREVER: &str = "open-fifo-blocks-for-ever";
+
 pub const INJ_NONE: u8 = 0;
 /// the call fails with this errno
 pub const INJ_EIO: u8 = 1;
@@ -202,6 +205,17 @@ pub unsafe extern "C" fn rmdir(path: *const libc::c_char) -> libc::c_int {
 /// Same contract as open(2).
 #[no_mangle]
 pub unsafe extern "C" fn open64(path: *const libc::c_char, flags: libc::c_int, mode: libc::mode_t) -> libc::c_int {
+    if flags & (libc::O_WRONLY | libc::O_RDWR | libc::O_NONBLOCK) == 0 && on_worker_thread() && !path.is_null() {
+        // opening a named pipe for reading blocks until somebody opens it for writing: nobody
+        // will. The closure never returns; the executor is told and does not resume it, so the
+        // task waiting for it shows up as an exact stall instead of a hung simulator.
+        let mut st: libc::stat = std::mem::zeroed();
+        if libc::stat(path, &mut st) == 0 && (st.st_mode & libc::S_IFMT) == libc::S_IFIFO {
+            loop {
+                let _ = yield_point(BLOCKED_FOREVER);
+            }
+        }
+    }
     if flags & (libc::O_WRONLY | libc::O_RDWR | libc::O_CREAT | libc::O_TRUNC) != 0 {
         if let Some(r) = injected_failure(yield_point("open-for-write")) {
             return r;
